@@ -123,6 +123,18 @@ func Float(name string, idx ...int) float64 {
 	return Generic(n, R.Seed)
 }
 
+// FloatN is a nondet float64 that may also be NaN (flag name#def false in the replay).
+func FloatN(name string, idx ...int) float64 {
+	Load()
+	n := nameOf(name, idx)
+	if d, ok := R.Bools[n+"#def"]; ok && !d {
+		return math.NaN()
+	}
+	return Float(name, idx...)
+}
+
+func IsNaN(x float64) bool { return math.IsNaN(x) }
+
 func Assume(c bool) {
 	if !c {
 		panic(AssumeFailed{"assume"})
